@@ -112,6 +112,7 @@ type Outcome struct {
 	Unspecified string // non-empty: do not compare
 	Budget      bool
 	TooBig      bool // a value outgrew 1 MiB: do not run the real code on this case
+	LoadErr     bool // the program must be rejected at load time (reason in Unspecified)
 	Shared      *Shared
 }
 
